@@ -364,6 +364,79 @@ func runOrder(c Case, res *lib.Result) {
 	res.Count("order")
 }
 
+// orderbo: a host that asked for a pause (429 + Retry-After) is offered after the hosts that are not waiting, whatever
+// its priority, and takes its place again once the pause is over.  Step 1: every mirror that is tried before the
+// upstream answers 429 with Retry-After: 1 and the upstream serves; step 2 (at once): the first request must go to a
+// host that is not waiting; step 3 (after the pause): the order of step 1 again.  Each step is also given to the Coq
+// model of sortHostsCmp (release times abstracted to 0 = none, 1000 = in the future, now = 500).
+func runOrderBackoff(c Case, res *lib.Result) []string {
+	t := newTopo(c)
+	var attempts []int
+	pause := true
+	t.hook = func(hi int, req *http.Request, n int) *http.Response {
+		if !strings.Contains(req.URL.Path, "/manifests/") {
+			return nil
+		}
+		attempts = append(attempts, hi)
+		if pause && hi != 0 {
+			return memrt.Resp(429, map[string]string{"Retry-After": "1"}, []byte(`{"errors":[]}`))
+		}
+		return nil
+	}
+	ctx, cancel := context.WithTimeout(context.Background(), 15*time.Second)
+	defer cancel()
+	r, _ := ref.New(hostNames[0] + "/repo:tag")
+	coqHosts := func(waiting map[int]bool) string {
+		var hs []string
+		for _, m := range c.Mirrors {
+			l := 0
+			if waiting[m.ID] {
+				l = 1000
+			}
+			hs = append(hs, fmt.Sprintf("mkBH (mkHost %d %d false) %d", m.ID, m.Prio, l))
+		}
+		hs = append(hs, fmt.Sprintf("mkBH (mkHost 0 %d true) 0", c.UpPrio))
+		return lib.CoqList(hs)
+	}
+	var terms []string
+	// step 1
+	_, err := t.rc.ManifestHead(ctx, r)
+	if err != nil || len(attempts) == 0 {
+		res.Count("orderbo:setup-failed")
+		return nil
+	}
+	step1 := append([]int(nil), attempts...)
+	terms = append(terms, fmt.Sprintf("mkOrder 500 %s %d", coqHosts(nil), step1[0]))
+	waiting := map[int]bool{}
+	for _, h := range step1 {
+		if h != 0 {
+			waiting[h] = true
+		}
+	}
+	// step 2: at once
+	pause = false
+	attempts = nil
+	t0 := time.Now()
+	_, _ = t.rc.ManifestHead(ctx, r)
+	if len(attempts) > 0 && time.Since(t0) < 900*time.Millisecond {
+		if waiting[attempts[0]] {
+			res.Fail("host-order waiting-host-first", fmt.Sprintf("mirrors %+v upstream priority %d: %s had answered 429 with Retry-After: 1 and was offered first again %v later", c.Mirrors, c.UpPrio, hostNames[attempts[0]], time.Since(t0)), c)
+		}
+		terms = append(terms, fmt.Sprintf("mkOrder 500 %s %d", coqHosts(waiting), attempts[0]))
+	}
+	// step 3: after the pause the order is that of step 1 again
+	if c.Drops > 0 {
+		time.Sleep(1100 * time.Millisecond)
+		attempts = nil
+		_, _ = t.rc.ManifestHead(ctx, r)
+		if len(attempts) > 0 && attempts[0] != step1[0] {
+			res.Fail("host-order after-pause", fmt.Sprintf("mirrors %+v upstream priority %d: after the pause the first request went to %s, before it to %s", c.Mirrors, c.UpPrio, hostNames[attempts[0]], hostNames[step1[0]]), c)
+		}
+	}
+	res.Count("orderbo")
+	return terms
+}
+
 // a blob read with mid-body drops: resumes draw on the same attempt budget and must terminate
 func runResume(c Case, res *lib.Result) {
 	t := newTopo(c)
@@ -572,6 +645,8 @@ func runCaseRaw(c Case, res *lib.Result) string {
 	switch c.Kind {
 	case "backoff":
 		return runBackoff(c, res)
+	case "orderbo":
+		return strings.Join(runOrderBackoff(c, res), "\x00")
 	case "next":
 		return runNext(c, res)
 	case "mutate":
@@ -588,7 +663,7 @@ func runCaseRaw(c Case, res *lib.Result) string {
 
 func Run(o lib.Opts) {
 	res := lib.NewResult("C12", o.Tier, o.Seed)
-	res.Rule = "one splitmix64 stream: (next) ManifestGet / ManifestDelete against an upstream with 0-2 mirrors of distinct priorities, retry limit 1-5 and a reply script over {ok, connection reset, 429/408/504/502/500, 404/416, 401 accepted/refused, 403/400/503/409} of length 0-9, hosts attempted and outcome compared with the Coq model; (mutate) each mutating API with mirrors configured; (transient) k < limit transient faults before normal service for ManifestGet/BlobGet/ManifestPut; (order) first host tried vs documented order; (resume) blob reads with 0-6 mid-body drops; (backoff) 16 series of ManifestHead calls on one host consuming a script of 2-11 replies over {ok, connection error, 429/500/502/504/408/503/400, 404, one 429 with Retry-After: 1} followed by 0-8 successful calls, retry limit 3-6, delays 1 ms / 8 ms, with the hook snapshot of the host's backoff bookkeeping at every request; non-trivial = script with a failure; distinct by case"
+	res.Rule = "one splitmix64 stream: (next) ManifestGet / ManifestDelete against an upstream with 0-2 mirrors of distinct priorities, retry limit 1-5 and a reply script over {ok, connection reset, 429/408/504/502/500, 404/416, 401 accepted/refused, 403/400/503/409} of length 0-9, hosts attempted and outcome compared with the Coq model; (mutate) each mutating API with mirrors configured; (transient) k < limit transient faults before normal service for ManifestGet/BlobGet/ManifestPut; (order) first host tried vs documented order; (resume) blob reads with 0-6 mid-body drops; (orderbo) mirrors that answer 429 with Retry-After: 1 must be offered after the hosts that are not waiting on the next request and regain their place after the pause, each step compared with the Coq model of sortHostsCmp; (backoff) 16 series of ManifestHead calls on one host consuming a script of 2-11 replies over {ok, connection error, 429/500/502/504/408/503/400, 404, one 429 with Retry-After: 1} followed by 0-8 successful calls, retry limit 3-6, delays 1 ms / 8 ms, with the hook snapshot of the host's backoff bookkeeping at every request; non-trivial = script with a failure; distinct by case"
 	if o.Replay != "" {
 		var f struct{ Case Case }
 		b, err := os.ReadFile(o.Replay)
@@ -621,6 +696,14 @@ func Run(o lib.Opts) {
 	// backoff series: fixed ones (incl. one server-requested delay of 1 s), then generated
 	all = append(all, Case{Kind: "backoff", Limit: 5, Drops: 8, Replies: []Reply{{K: "status", Code: 429}, {K: "status", Code: 500}, {K: "ok"}, {K: "net"}, {K: "status", Code: 502}, {K: "status", Code: 504}, {K: "status", Code: 408}, {K: "ok"}}})
 	all = append(all, Case{Kind: "backoff", Limit: 4, Drops: 2, Replies: []Reply{{K: "status", Code: 429, RA: 1}, {K: "status", Code: 429}, {K: "ok"}}})
+	// waiting hosts are offered last: mirrors that the code tries before the upstream (lower priority number, or equal)
+	all = append(all, Case{Kind: "orderbo", Limit: 3, Mirrors: []Host{{1, 1}}, UpPrio: 5, Drops: 1},
+		Case{Kind: "orderbo", Limit: 3, Mirrors: []Host{{1, 2}, {2, 3}}, UpPrio: 5},
+		Case{Kind: "orderbo", Limit: 3, Mirrors: []Host{{1, 5}, {2, 9}}, UpPrio: 5})
+	for i := 0; i < o.Scale(6, 60); i++ {
+		ms, up := genMirrors(r)
+		all = append(all, Case{Kind: "orderbo", Limit: 3, Mirrors: ms, UpPrio: up})
+	}
 	nb := o.Scale(14, 400)
 	for i := 0; i < nb; i++ {
 		c := Case{Kind: "backoff", Limit: 3 + r.Intn(4), Drops: r.Intn(9)}
@@ -685,7 +768,9 @@ func Run(o lib.Opts) {
 		seen.Add(string(kb))
 		term := runCase(c, res)
 		if o.Mode != "search" && term != "" {
-			cw.Add(term, c)
+			for _, t1 := range strings.Split(term, "\x00") {
+				cw.Add(t1, c)
+			}
 		}
 		if c.Kind == "next" {
 			res.Sample(c, 3)
